@@ -78,7 +78,7 @@ def meaningPy : String → Option MathFn
   | "nexttoward" => some .nexttoward
   | "fdim" => some .fdim | "fmax" => some .fmax | "fmin" => some .fmin
   | "fabs" => some .fabs | "abs" => some .fabs | "fma" => some .fma
-  | "builtins.abs" => some .fabs | "builtins.pow" => some .pow
+  | "builtins.abs" => some .fabs | "builtins.pow" => some .pow | "builtins.round" => some .round
   | _ => none
 
 /-- What a C++ name means (ISO C++ `<cmath>`). -/
